@@ -229,6 +229,18 @@ def run_check(prop: str, tier: str = "quick", replay: Optional[str] = None) -> i
         for name, r in res.rules.items():
             if r["sites"] < r["floor"]:
                 res.errors.append(f"rule {name}: {r['sites']} sites < floor {r['floor']} ({r.get('what','')})")
+        if tier == "thorough" and not os.environ.get("HEXLINT_NO_SELFTEST") and not os.environ.get("HEXLINT_EVIDENCE_DIR"):
+            # checker sensitivity on scratch copies of the current tree: recorded as evidence; a miss on a tree whose
+            # fragments are all present means the checker (not /repo) is broken
+            from .selftest.runner import run_for_property
+
+            st = run_for_property(prop)
+            res.universe["selftest"] = {"entries": len(st), "ok": sum(1 for x in st if x["status"] == "ok"), "skipped": [x["id"] for x in st if x["status"] == "skipped"], "failed": [x["id"] for x in st if x["status"] == "FAILED"]}
+            for x in st:
+                if x["status"] == "ok":
+                    res.ok("SELFTEST", {"edit": x["id"], "kind": x["kind"], "check exit": x["exit"]}, nontrivial=x["id"])
+                elif x["status"] == "FAILED":
+                    res.errors.append(f"self-test {x['id']} ({x['kind']}): check exit {x['exit']} contradicts the expectation")
         known = load_known()
         known_hits, unlisted = [], []
         seen = set()
